@@ -85,18 +85,20 @@ def strG (S : PrintPrec) (cf : Const → Nat → Except SErr Pieces) (bare : Boo
       let ap ← strGL S cf bare as S.none
       pure (fp ++ [sy "("] ++ joinWith [sy ",", .sp] ap ++ [sy ")"])
   | .callKw f as ns vs, _ => do
-      let fp ← strG S cf bare f S.call
+      -- `args_strings` (positional, then keyword values) is built before the callee is printed
       let ap ← strGL S cf bare as S.none
       let vp ← strGL S cf bare vs S.none
+      let fp ← strG S cf bare f S.call
       let kws := (ns.zip vp).map fun p => (.tok (.ident p.1) : Piece) :: sy "=" :: p.2
       pure (fp ++ [sy "("] ++ joinWith [sy ",", .sp] (ap ++ kws) ++ [sy ")"])
   | .subscript a (.tuple cs), enc => do
-      let ap ← strG S cf bare a S.call
+      -- `index_str` is computed before the aggregate is printed
       let ip := joinWith [sy ",", .sp] (← strGL S cf bare cs S.none)
+      let ap ← strG S cf bare a S.call
       pure (parenIf (ap ++ [sy "["] ++ ip ++ [sy "]"]) enc S.call)
   | .subscript a i, enc => do
-      let ap ← strG S cf bare a S.call
       let ip ← strG S cf bare i S.none
+      let ap ← strG S cf bare a S.call
       pure (parenIf (ap ++ [sy "["] ++ ip ++ [sy "]"]) enc S.call)
   | .lookup a n, enc => do
       let ap ← strG S cf bare a S.call
